@@ -61,8 +61,13 @@ def case_strategy(draw):
     zeros = draw(st.lists(st.integers(0, n - 1), min_size=draw(st.sampled_from([1, 3, 0])), max_size=max(3, n // 6), unique=True))
     neg = draw(st.lists(st.sampled_from(zeros), max_size=2, unique=True)) if zeros else []
     perm = draw(st.permutations(list(range(n))))
-    opt = draw(st.sampled_from(['bkspace', 'nbkpts']))
+    opt = draw(st.sampled_from(['bkspace', 'nbkpts', 'bkspace', 'nbkpts', 'placed']))
     kw = dict(nbkpts=draw(st.integers(4, 9))) if opt == 'nbkpts' else dict(bkspace=span / draw(st.integers(3, 8)) * (1 + 0.03 * draw(uf)))
+    if opt == 'placed':
+        # breakpoints placed by the caller: five to nine positions, or a single one, of which those inside the data range count
+        # (fewer than two inside: the two ends of the data are used instead)
+        npl = draw(st.sampled_from([6, 1, 5, 9, 1, 7]))
+        kw = dict(placed=sorted(x0 + span * (0.02 + 0.96 * (j + 0.5 + 0.3 * draw(uf)) / npl) for j in range(npl)))
     exact = None
     if opt == 'bkspace' and draw(st.integers(0, 2)) == 0:
         # a spacing that divides the range of the weighted data exactly (0.1 into 1, 0.4 into 10, ...): the end points are put on x0 and x0 + span
@@ -74,6 +79,7 @@ def case_strategy(draw):
                 lower=draw(st.one_of(st.sampled_from([0, 0.0, 5]), uf.map(lambda v: 3 + 3 * 0.5 * (1 + v)), uf.map(lambda v: 3 + 3 * 0.5 * (1 + v)), uf.map(lambda v: 3 + 3 * 0.5 * (1 + v)))),
                 maxiter=draw(st.sampled_from([3, 2, 10, 1, 0])), wvary=draw(st.booleans()),
                 weights=draw(st.sampled_from(['invvar', 'invvar', 'invvar', 'none', 'none-integer-y', 'none-flat-y'])), exact_range=exact,
+                lowblock=draw(st.sampled_from([None, None, None, [0.3, 0.65], [0.0, 0.4], [0.55, 1.0]])),
                 # some abscissae occur twice or three times (two exposures on one grid, rounded positions)
                 dups=draw(st.sampled_from([[], [], draw(st.lists(st.tuples(st.integers(1, n - 2), st.integers(1, n - 2)), min_size=1, max_size=8))])))
 
@@ -108,6 +114,12 @@ def build(case):
     for i, a in zip(case['outl'], case['osign']):
         y[i] += a * sigv[i]
     iv = 1.0 / sigv ** 2
+    if case.get('lowblock'):
+        # a stretch of the data (a third of the range, several breakpoint intervals) carries weights a million times smaller: still
+        # positively weighted points, to be fitted like all others
+        a_, b_ = case['lowblock']
+        blk = (s >= a_) & (s <= b_)
+        iv[blk] *= 1.5e-6
     iv[case['zeros']] = 0.0
     iv[case['neg']] = -1.0
     return x, y, iv
@@ -154,7 +166,7 @@ def body(case):
     x, y, iv = build(case)
     n = len(x)
     nord, kw = case['nord'], case['kw']
-    args = dict(nord=nord, upper=case['upper'], lower=case['lower'], maxiter=case['maxiter'], **kw)
+    args = dict(nord=nord, upper=case['upper'], lower=case['lower'], maxiter=case['maxiter'], **{k_: (np.array(v_) if k_ == 'placed' else v_) for k_, v_ in kw.items()})
     wmode = case.get('weights', 'invvar')
     if wmode != 'invvar':
         # inverse variance omitted: documented default = 1 / (sample variance of y) for every point
@@ -196,7 +208,11 @@ def body(case):
         check(np.array_equal(np.asarray(sset_p.breakpoints), np.asarray(sset.breakpoints)), 'perm:knots-differ')
         check(bool(np.all(np.abs(np.asarray(curve) - np.asarray(curve_p)) <= 1e-8 * scale)), 'perm:curve-depends-on-input-order',
               lambda: dict(maxdev=float(np.abs(np.asarray(curve) - np.asarray(curve_p)).max())))
-        check(np.array_equal(mask_p, mask[perm]), 'perm:mask-not-in-caller-order', lambda: dict(ndiff=int((mask_p != mask[perm]).sum())))
+        # with weights spanning six decades the two runs differ by round-off amplified by the conditioning (1e-8 relative): a
+        # residual that close to a limit may fall on either side, so the masks are compared unless the reference run saw one
+        pre = reference(t, nord, x, y, iv, case['lower'], case['upper'], case['maxiter']) if case.get('lowblock') else None
+        if pre is None or (pre[2] and not pre[3]):
+            check(np.array_equal(mask_p, mask[perm]), 'perm:mask-not-in-caller-order', lambda: dict(ndiff=int((mask_p != mask[perm]).sum())))
     with judge('weights'):
         check(not mask[iv <= 0].any(), 'nonpositive-invvar-point-flagged-good', lambda: dict(idx=np.nonzero(mask & (iv <= 0))[0].tolist()))
     coeff, rmask, supported, near = reference(t, nord, x, y, iv, case['lower'], case['upper'], case['maxiter'])
